@@ -164,6 +164,12 @@ def exact_value(case, d, q):
     return y[c] + Fraction((q - x[c]) * (y[c + 1] - y[c]), ds)
 
 
+def exact_base(case, d, q):
+    """y[c]: the anchor value the interpolation offset k is added to"""
+    x, y = (case.x, case.y) if d == "s" else (case.y, case.x)
+    return y[0] if len(x) == 1 else y[seg_for(x, q)]
+
+
 def c_round(v):          # C round(): half away from zero, exact
     a = abs(v)
     r = math.floor(a)
@@ -469,7 +475,20 @@ def check_case(ctx, case, variant, line, mres, cres, qmeta, stats, phase):
             viol("eqt", "time -> sample id across two anchors with equal time: dt/ds with ds = 0, NaN/inf cast to int64 "
                  "(undefined behaviour; x86 result %s); query %s%s; model: %s" % (hx(cv), d, hx(q), "FAULT:FPINV" if mm is None else mm), sig=SIG_EQT)
             continue
-        produced.append((d, q, cv))
+        yc = exact_base(case, d, q)
+        kmag = abs(ex - yc)                      # |k|: offset from the segment's first anchor
+        guard = kmag < (1 << 51)                 # range in which binary64 evaluates dk*(dt/ds) to within 1/2
+        tol = 1 if guard else 1 + kmag * Fraction(1, 1 << 50)
+        if not guard:
+            stats["beyond_guard"] += 1
+        if d == "t" and not strict_t:
+            # map with equal consecutive times, a segment of non-zero width: the property is still evaluated,
+            # everything is routed to the equal-times class
+            if abs(cv - ex) > tol:
+                stats["eqt"] += 1
+                viol("eqt", "time -> sample id on a map with equal consecutive times: %s%s -> %s, exact %s" % (d, hx(q), hx(cv), float(ex)), sig=SIG_EQT)
+            continue
+        produced.append((d, q, cv, guard))
         # (1) model vs implementation: exact where binary64 and exact arithmetic must agree, else +-1
         if mm is not None and mm[1] is not None:
             dm = abs(cv - mm[1])
@@ -479,9 +498,9 @@ def check_case(ctx, case, variant, line, mres, cres, qmeta, stats, phase):
                     viol("model", "model %s and implementation %s differ at %s%s (%s) where exact and binary64 evaluation must agree" % (hx(mm[1]), hx(cv), d, hx(q), cls))
             else:
                 stats["cmp_pm1"] += 1
-                if dm > 1:
-                    viol("model", "model %s and implementation %s differ by more than 1 at %s%s (%s)" % (hx(mm[1]), hx(cv), d, hx(q), cls))
-                if dm == 1:
+                if dm > tol:
+                    viol("model", "model %s and implementation %s differ by more than %s at %s%s (%s)" % (hx(mm[1]), hx(cv), float(tol), d, hx(q), cls))
+                if dm >= 1:
                     stats["gap1"] += 1
         # (2) binary64 re-evaluation of the modelled expression equals the implementation bit for bit
         fe = float_eval(case, d, q)
@@ -490,16 +509,15 @@ def check_case(ctx, case, variant, line, mres, cres, qmeta, stats, phase):
             if fe != cv:
                 viol("float", "implementation %s differs from the binary64 evaluation %s of dk*(dt/ds) at %s%s (%s)" % (hx(cv), hx(fe), d, hx(q), cls))
         # (3) the property on the implementation's output
-        big = abs(ex) >= (1 << 62)
-        if cls == "anchor" and (d == "s" or strict_t):
+        if cls == "anchor":
             # every stored pair is reproduced exactly
             i = (case.x if d == "s" else case.y).index(q)
             want = (case.y if d == "s" else case.x)[i]
             if cv != want:
                 viol("anchor", "anchor not reproduced: %s%s -> %s, stored %s" % (d, hx(q), hx(cv), hx(want)))
-        if not big and abs(cv - ex) > 1:
-            viol("tick", "%s%s -> %s is %s away from the exact value %s (> 1)" % (d, hx(q), hx(cv), float(abs(cv - ex)), float(ex)))
-        if abs(cv - ex) > Fraction(1, 2) and not big:
+        if abs(cv - ex) > tol:
+            viol("tick", "%s%s -> %s is %s away from the exact value %s (> %s)" % (d, hx(q), hx(cv), float(abs(cv - ex)), float(ex), float(tol)))
+        if abs(cv - ex) > Fraction(1, 2) and guard:
             stats["off_half"] += 1
         results_sorted[d].append((q, cv))
     cur["sig"] = None
@@ -514,6 +532,17 @@ def check_case(ctx, case, variant, line, mres, cres, qmeta, stats, phase):
             if a[1] > b[1]:
                 viol("monotone", "not monotone: %s%s -> %s but %s%s -> %s" % (d, hx(a[0]), hx(a[1]), d, hx(b[0]), hx(b[1])))
     return produced, tick_per_sample and strict_t
+
+
+def compress(v):
+    out, i = [], 0
+    while i < len(v):
+        j = i
+        while j + 1 < len(v) and v[j + 1] == v[j] + 1:
+            j += 1
+        out.append(str(v[i]) if i == j else "%d..%d" % (v[i], v[j]))
+        i = j + 1
+    return ",".join(out)
 
 
 def run_pass(ctx, cases, lines, metas, stats, phase, variants):
@@ -533,7 +562,7 @@ def run_tmap(ctx, build=True):
     if build:
         vlib.build(ctx, PROP_FILES, variants=("plain", "asan"))
     stats = {"viol": {}, "nviol": 0, "oob": 0, "eqt": 0, "ovf": 0, "cmp_exact": 0, "cmp_pm1": 0, "gap1": 0, "cmp_float": 0,
-             "off_half": 0, "classes": {}, "inverse": 0, "inverse_na": 0, "inverse_exact": 0}
+             "off_half": 0, "beyond_guard": 0, "classes": {}, "inverse": 0, "inverse_na": 0, "inverse_exact": 0}
     # constants
     cm = vlib.run_model("tmap", ["consts"], shards=1)
     cc = vlib.run_c("asan", "tmap", ["consts"], shards=1)
@@ -548,7 +577,7 @@ def run_tmap(ctx, build=True):
     # inverse pass: feed the implementation's own outputs back in the other direction
     inv_cases, inv_lines, inv_metas, inv_expect = [], [], [], []
     for case, (produced, applicable) in zip(cases, res["plain"]):
-        fw = [(d, q, v) for (d, q, v) in produced if d == "s"]
+        fw = [(d, q, v) for (d, q, v, g) in produced if d == "s" and g]
         if not fw:
             continue
         if not applicable:
@@ -564,7 +593,7 @@ def run_tmap(ctx, build=True):
     res2 = run_pass(ctx, inv_cases, inv_lines, inv_metas, stats, "inv", ("asan", "plain"))
     nbad = 0
     for case, line, want, (produced, _) in zip(inv_cases, inv_lines, inv_expect, res2["plain"]):
-        back = {t: b for (_, t, b) in produced}
+        back = {t: b for (_, t, b, g) in produced if g}
         for (q, t) in want:
             if t not in back:
                 continue
@@ -579,13 +608,13 @@ def run_tmap(ctx, build=True):
                                   "replay: echo '%s' | %s/plain/jlsrun tmap\n" % (hx(q), hx(t), hx(back[t]), line, line, vlib.BUILD),
                                   "inverse not within one sample: s%s -> t%s -> %s" % (hx(q), hx(t), hx(back[t])))
     ctx.extra["distribution"] = {
-        "cases(lines)": len(lines) + len(inv_lines), "entry_counts": sorted({len(c.entries) for c in cases}),
+        "cases(lines)": len(lines) + len(inv_lines), "entry_counts": compress(sorted({len(c.entries) for c in cases})),
         "rates_hz": sorted({float(c.rate) for c in cases}),
         "queries_by_class": {"%s/%s" % k: v for k, v in sorted(stats["classes"].items())},
         "model_vs_implementation_exact": stats["cmp_exact"], "model_vs_implementation_within_1": stats["cmp_pm1"], "of_which_differ_by_1 (binary64 gap, measured)": stats["gap1"],
         "binary64_reevaluation_equal": stats["cmp_float"], "implementation_off_exact_by_more_than_half_tick": stats["off_half"],
         "inverse_checked": stats["inverse"], "inverse_exact": stats["inverse_exact"], "inverse_not_applicable(<1 tick/sample or equal times)": stats["inverse_na"],
-        "over_read_faults(asan)": stats["oob"], "equal_time_queries": stats["eqt"], "overflow_ub_cases": stats["ovf"],
+        "queries_beyond_the_2^51_guard(relative tolerance)": stats["beyond_guard"], "over_read_faults(asan)": stats["oob"], "equal_time_queries": stats["eqt"], "overflow_ub_cases": stats["ovf"],
         "violations_by_kind": dict(stats["viol"]),
     }
     ctx.cov["rule"] = ("case = one map (rate, generated or explicit adds) + one query; maps: entry counts %s and every count 1..40, rates 0.5 Hz..2^32 Hz, "
